@@ -322,6 +322,16 @@ distinct = distinct positions / names / strings; oracle = reference successor on
             obs.count("positions_under_changing_prefixes_for_one_directory", 1);
         }
     }
+    // many different sites in one process (the network has about 160; nothing limits the count):
+    // each identifier keeps the site it was made with, through derivation and succession
+    {
+        let n_sites = ctx.tier.pick(700usize, 70_000usize);
+        for k in 0..n_sites {
+            let site = format!("{}{}{}{}", (b'A' + (k / 17_576 % 26) as u8) as char, (b'A' + (k / 676 % 26) as u8) as char, (b'A' + (k / 26 % 26) as u8) as char, (b'A' + (k % 26) as u8) as char);
+            check_position(obs, &site, 1 + k % 999, prefixes[k % 3], 1 + k % 55);
+        }
+        obs.count("distinct_sites_in_one_process", n_sites as u64);
+    }
     obs.sample(json!({"kind": "position", "name": "20240813-123330-055-E", "volume": 999, "expected_successor": "volume 1"}));
 
     // ---- archive names -----------------------------------------------------------------------------------
